@@ -261,7 +261,7 @@ func (k *work) run(ctx context.Context, rw http.ResponseWriter) {
 			w.gateUsed = true
 			simrt.Recv("work.gate", w.gate)
 		case sPanic:
-			k.panicked = true
+			k.panicked, k.tFin = true, time.Now()
 			k.panicVal = fmt.Sprintf("boom-of-work-%d", k.id)
 			r.Ev("work-panic", int64(k.id))
 			panic(k.panicVal)
